@@ -42,6 +42,20 @@ int main(void) {
             size_t wr = carquet_bitpack_32(v, count, w, out);
             printf("OK "); h_puthex(out, wr); putchar('\n');
             free(v); free(out);
+        } else if (!strcmp(op, "bitunpack") && h_ntok == 4) {
+            /* carquet_bitunpack_32 on an input of exactly the given bytes; the caller contract is
+               that the input holds packed_size(count, w) bytes: shorter inputs are reported as FAULT
+               by the driver without calling (the model says Fault OobRead there) */
+            int w = atoi(h_tok[1]); size_t count = (size_t)atoll(h_tok[2]); size_t n; void* base;
+            uint8_t* in = h_unhex(h_tok[3], &n, 0, &base);
+            size_t need = (w == 0) ? 0 : (count / 8) * (size_t)w + carquet_packed_size(count % 8, w);
+            if (n < need) { puts("FAULT"); free(base); }
+            else {
+                uint32_t* v = malloc((count ? count : 1) * sizeof(uint32_t));
+                size_t used = carquet_bitunpack_32(in, count, w, v);
+                printf("OK "); put_vals_u32(v, (int64_t)count); printf(" %zu\n", used);
+                free(v); free(base);
+            }
         } else if (!strcmp(op, "rle_enc") && h_ntok >= 2) {
             int w = atoi(h_tok[1]); int64_t count = h_ntok - 2;
             uint32_t* v = malloc((count ? count : 1) * sizeof(uint32_t));
